@@ -13,7 +13,9 @@ namespace Psutil.C15
 open Spec
 
 /-- the configuration the property statement speaks about: 0.1 ms, doubling, 40 ms cap,
-    deadline checked (with `>=`) before sleeping, negative timeouts rejected -/
+    deadline checked (with `>=`) before sleeping, negative timeouts rejected.
+    (`sliceN`, the numerator of `wait_procs`' per-process slice, is deliberately NOT constrained:
+    every theorem holds for any slice, the fact only feeds the model the driver runs.) -/
 structure Cfg.Good (c : Cfg) : Prop where
   i0n : c.i0n = 1
   i0d : c.i0d = 10000
@@ -23,7 +25,6 @@ structure Cfg.Good (c : Cfg) : Prop where
   check : c.checkBeforeSleep = true
   ge : c.deadlineGe = true
   validate : c.validateNonNeg = true
-  slice : c.sliceN = 1
 
 theorem Cfg.Good.i0_eq {c : Cfg} (hg : c.Good) : c.i0 = Spec.i0 := by
   simp [Cfg.i0, Spec.i0, hg.i0n, hg.i0d]
